@@ -28,11 +28,11 @@ Section Over.
         | (T.RData d, k1, sc1) =>
             match new_data rx re_search c s d with
             | (Some r, s') => Done r s' k1 sc1
-            | (None, s') => if t0 then Done (fst (timeout rx c s')) (snd (timeout rx c s')) k1 sc1 else drive f c t0 s' k1 sc1
+            | (None, s') => if t0 then Done (fst (timeout c s')) (snd (timeout c s')) k1 sc1 else drive f c t0 s' k1 sc1
             end
-        | (T.RTimeout, k1, sc1) => Done (fst (timeout rx c s)) (snd (timeout rx c s)) k1 sc1
-        | (T.REof, k1, sc1) => Done (fst (eof rx c s)) (snd (eof rx c s)) k1 sc1
-        | (T.RBlocked, k1, sc1) => Done (fst (errored rx c s)) (snd (errored rx c s)) k1 sc1
+        | (T.RTimeout, k1, sc1) => Done (fst (timeout c s)) (snd (timeout c s)) k1 sc1
+        | (T.REof, k1, sc1) => Done (fst (eof c s)) (snd (eof c s)) k1 sc1
+        | (T.RBlocked, k1, sc1) => Done (fst (errored c s)) (snd (errored c s)) k1 sc1
         end
     end.
 
@@ -42,14 +42,19 @@ Section Over.
     | (None, s') => drive fuel c t0 s' k sc
     end.
 
-  (** a history of calls on one object over one schedule: (configuration, timeout is 0) per call *)
-  Fixpoint calls_over (fuel : nat) (cs : list (cfg rx * bool)) (s : st) (k : T.kern) (sc : T.sched) : list outcome :=
+  (** a history of calls on one object over one schedule: (configuration, timeout is 0) per call; None = out of fuel *)
+  Fixpoint calls_over (fuel : nat) (cs : list (cfg rx * bool)) (s : st) (k : T.kern) (sc : T.sched)
+    : option (list res * st * T.kern * T.sched) :=
     match cs with
-    | [] => []
+    | [] => Some ([], s, k, sc)
     | (c, t0) :: r =>
         match expect_over fuel c t0 s k sc with
-        | Done x s' k' sc' => Done x s' k' sc' :: calls_over fuel r s' k' sc'
-        | OutOfFuel => [OutOfFuel]
+        | Done x s' k' sc' =>
+            match calls_over fuel r s' k' sc' with
+            | Some (xs, s2, k2, sc2) => Some (x :: xs, s2, k2, sc2)
+            | None => None
+            end
+        | OutOfFuel => None
         end
     end.
 End Over.
